@@ -1,12 +1,17 @@
 # /verif/Makefile -- `make setup` builds the stable Coq library (coq/lib) and the extracted models.
-COQLIBV := $(wildcard coq/lib/*.v)
+COQLIBV := $(wildcard coq/lib/*.v) $(wildcard coq/models/*.v)
 .PHONY: setup clean
-setup: coq/lib/.built
+setup: coq/lib/.built coq/extract/corr_model
 
 coq/lib/.built: $(COQLIBV) coq/_CoqProject
 	cd coq && coq_makefile -f _CoqProject -o Makefile.coq
 	cd coq && $(MAKE) -f Makefile.coq -j16
 	touch $@
 
+# extraction of the hand-written models (ExtrOcamlBasic only) and the model side of the correspondence check
+coq/extract/corr_model: coq/lib/.built coq/extract/Extract.v tools/corr/corr_driver.ml
+	cd coq/extract && coqc -Q ../lib GLMV -Q ../models GLMM Extract.v
+	cd coq/extract && ocamlfind ocamlopt -w -a -I . models.mli models.ml ../../tools/corr/corr_driver.ml -o corr_model
+
 clean:
-	rm -rf _work coq/lib/*.vo coq/lib/*.vok coq/lib/*.vos coq/lib/*.glob coq/lib/.*.aux coq/lib/.built coq/Makefile.coq coq/Makefile.coq.conf
+	rm -rf _work coq/extract/corr_model coq/extract/models.* coq/extract/*.cm* coq/extract/*.o coq/models/*.vo coq/lib/*.vo coq/lib/*.vok coq/lib/*.vos coq/lib/*.glob coq/lib/.*.aux coq/lib/.built coq/Makefile.coq coq/Makefile.coq.conf
